@@ -89,3 +89,18 @@ Print Assumptions C20_live_never_removes_foreign.
 Theorem C20_live_legacy_refuted : foreign (dir w_foreign) = true /\ live_run false w_foreign r0 <> w_foreign.
 Proof. exact live_legacy_removes_foreign. Qed.
 Print Assumptions C20_live_legacy_refuted.
+
+(* What lies OUTSIDE DIR and DIR.old: when `uftrace record -d DIR` removes an old DIR.old (uftrace data or empty) it
+   does not follow symbolic links found inside it - the directory a link points to is exactly as before, for every
+   pre-existing state of DIR and DIR.old. *)
+Theorem C20_outside_never_touched : forall w ext, outside_after false w ext = ext.
+Proof. exact outside_untouched. Qed.
+Print Assumptions C20_outside_never_touched.
+
+(* The code as found examined the entries with stat(): a link to a foreign directory inside a previous data directory
+   was taken for a sub-directory and the foreign directory was emptied (repaired: lstat, the link itself is removed). *)
+Theorem C20_outside_legacy_refuted :
+  outside_after true link_world ext_example = Some (Dir []) /\
+  outside_after false link_world ext_example = ext_example.
+Proof. exact outside_legacy_refuted. Qed.
+Print Assumptions C20_outside_legacy_refuted.
